@@ -1,5 +1,158 @@
+import SamVerif.Model.Doc
+import SamVerif.Model.CommentQueue
 import Driver.Util
-/-! Line-protocol driver for property C09 (model side). Not implemented yet. -/
+/-! Protocols of C09 (model side): `layout`, `expand`, `flatten`, `layoutdoc`, `agree`, `queue`,
+`prepend`, `echo`. Same line formats as `harness/src/bin/c09.rs`. -/
+namespace Driver.C09
+open SamVerif.Doc Driver
+
+def strOfHex (s : String) : Str :=
+  (String.fromUTF8! (ByteArray.mk (bytesOfHex s).toArray)).toList
+
+def hexOfStr (s : Str) : String := hexOfBytes (String.ofList s).toUTF8.toList
+
+/-- Prefix-notation reader (see the hook `samlang_printer::verif_hooks`). -/
+partial def parseDoc : List String → Option (Doc × List String)
+  | "N" :: r => some (.nil, r)
+  | "T" :: h :: r => some (.text (strOfHex h), r)
+  | "S" :: h :: r => some (.nstext (strOfHex h), r)
+  | "L" :: r => some (.line, r)
+  | "LN" :: r => some (.lineNil, r)
+  | "LH" :: r => some (.lineHard, r)
+  | "C" :: r => do
+    let (a, r) ← parseDoc r
+    let (b, r) ← parseDoc r
+    pure (.concat a b, r)
+  | "I" :: n :: r => do
+    let (a, r) ← parseDoc r
+    pure (.nest n.toNat! a, r)
+  | "U" :: r => do
+    let (a, r) ← parseDoc r
+    let (b, r) ← parseDoc r
+    pure (.union a b, r)
+  | "G" :: r => do
+    let (a, r) ← parseDoc r
+    pure (group a, r)
+  | "BF" :: l :: r => do
+    let (sep, r) ← parseDoc r
+    let (d, r) ← parseDoc r
+    match r with
+    | rt :: r => pure (bracketFlexible (strOfHex l) sep d (strOfHex rt), r)
+    | [] => none
+  | "LC" :: h :: r => some (lineComment (strOfHex h), r)
+  | "MC" :: s :: h :: r => some (multilineComment (strOfHex s) (strOfHex h), r)
+  | "CV" :: n :: r => do
+    let rec go (k : Nat) (acc : List Doc) (r : List String) : Option (List Doc × List String) :=
+      match k with
+      | 0 => some (acc.reverse, r)
+      | k + 1 => do
+        let (a, r) ← parseDoc r
+        go k (a :: acc) r
+    let (ds, r) ← go n.toNat! [] r
+    pure (concatV ds, r)
+  | _ => none
+
+partial def dumpDoc : Doc → List String → List String
+  | .nil, acc => "N" :: acc
+  | .concat a b, acc => "C" :: dumpDoc a (dumpDoc b acc)
+  | .nest n d, acc => "I" :: toString n :: dumpDoc d acc
+  | .text s, acc => "T" :: hexOfStr s :: acc
+  | .nstext s, acc => "S" :: hexOfStr s :: acc
+  | .line, acc => "L" :: acc
+  | .lineNil, acc => "LN" :: acc
+  | .lineHard, acc => "LH" :: acc
+  | .union a b, acc => "U" :: dumpDoc a (dumpDoc b acc)
+
+def showDoc (d : Doc) : String := " ".intercalate (dumpDoc d [])
+
+def readDoc (ws : List String) : Option Doc :=
+  match parseDoc ws with
+  | some (d, []) => some d
+  | _ => none
+
+open SamVerif.CommentQueue in
+def kindOf (s : String) : Kind := if s == "line" then .line else if s == "doc" then .doc else .block
+open SamVerif.CommentQueue in
+def kindName : Kind → String | .line => "line" | .block => "block" | .doc => "doc"
+
+open SamVerif.CommentQueue in
+def showComments (cs : List Comment) : String :=
+  ",".intercalate (cs.map fun c => kindName c.kind ++ "=" ++ hexOfStr c.text)
+
+open SamVerif.CommentQueue in
+/-- stream item: `kind=hex` with kind in line/block/doc (comment) or `t=hex` (token). -/
+def readStream (s : String) : List RawTok :=
+  if s == "-" then [] else
+  (s.splitOn ",").map fun item =>
+    match item.splitOn "=" with
+    | [k, h] => if k == "t" then .tok (strOfHex h) else .comment ⟨kindOf k, strOfHex h⟩
+    | _ => .tok []
+
+open SamVerif.CommentQueue in
+def readList (s : String) : List Comment :=
+  if s == "-" then [] else
+  (s.splitOn ",").map fun h => ⟨.block, if h == "e" then [] else strOfHex h⟩
+
+open SamVerif.CommentQueue in
+def step (_ : Unit) (line : String) : Unit × String :=
+  let ws := words line
+  ((), match ws with
+  | "layout" :: w :: rest =>
+    match readDoc rest with
+    | some d => "s:" ++ hexOfStr (prettyPrint w.toNat! d)
+    | none => "bad-doc"
+  | "layoutdoc" :: w :: rest =>
+    match readDoc rest with
+    | some d => "ok " ++ hexOfStr (prettyPrint w.toNat! d) ++ " " ++ showDoc d
+    | none => "bad-doc"
+  | "expand" :: rest =>
+    match readDoc rest with
+    | some d => "d:" ++ showDoc d
+    | none => "bad-doc"
+  | "flatten" :: rest =>
+    match readDoc rest with
+    | some d => match flatten d with
+      | some f => "d:" ++ showDoc f
+      | none => "none"
+    | none => "bad-doc"
+  | "agree" :: rest =>
+    match readDoc rest with
+    | some d =>
+      let b (x : Bool) := if x then "1" else "0"
+      s!"agree text={b (agreeB textKey d)} comment={b (agreeB commentKey d)} ns={b (agreeB nsKey d)} size={size d}"
+    | none => "bad-doc"
+  | ["queue", stream, ops] =>
+    let st0 := init (readStream stream)
+    let (st, parts) := ops.toList.foldl (fun (acc : State × List String) c =>
+      if c == 'c' then
+        let (st', cs) := consume acc.1
+        (st', ("c:" ++ showComments cs) :: acc.2)
+      else
+        let (st', t) := peek acc.1
+        (st', ("p:" ++ (match t with | .tok s => hexOfStr s | .eof => hexOfStr "EOF".toList)) :: acc.2))
+      (st0, [])
+    ";".intercalate (parts.reverse ++ ["|" ++ showComments st.pending])
+  | ["queue", stream] =>
+    let st0 := init (readStream stream)
+    "|" ++ showComments st0.pending
+  | "prepend" :: target :: extra :: groups =>
+    let t := target.toNat!
+    if t ≥ groups.length then "skip" else
+    let (store, refs) := groups.foldl (fun (acc : Store × List Nat) g =>
+      let (s, r) := createRef acc.1 (readList g); (s, acc.2 ++ [r])) (emptyStore, [])
+    match prepend store (refs[t]!) (readList extra) with
+    | none => "panic"
+    | some (s, r) =>
+      let texts := (get s r).getD []
+      let shown := if texts.isEmpty then "-" else ",".intercalate (texts.map fun c => hexOfStr c.text)
+      s!"r:{shown} n:{s.length}"
+  | "echo" :: rest => " ".intercalate rest
+  | _ => "bad-op")
+
+def run : IO Unit := runLoop () step
+
+end Driver.C09
+
 def main (_args : List String) : IO UInt32 := do
-  IO.eprintln "drv-c09: not implemented yet"
-  return 2
+  Driver.C09.run
+  return 0
